@@ -212,6 +212,48 @@ pub fn run_child(ctx: &Ctx) -> Report {
     st = st.merge(part);
     base += n_u;
 
+    // ---- (b') every form of request target (origin, absolute, authority, asterisk, empty, with fragment ...)
+    //      together with a form body, so that the URI is taken apart and rebuilt under form folding
+    {
+        let targets: Vec<String> = uris.iter().rev().skip(4).take(35).cloned().chain([
+            "localhost".to_string(), "localhost:80".into(), "[::1]:8080".into(), "http://[::1]/p?q=1".into(), "HTTP://EXAMPLE.COM".into(),
+            "http://example.com?x=1".into(), "http://example.com:80/p/../q?x=%41".into(), "ftp://h/p".into(), "a:1".into(), "x".into(),
+        ]).collect();
+        let form_bodies: [&[u8]; 6] = [b"", b"a=b", b"a=%zz", b"=", b"a=b&a=b&c", b"\xff=\xfe"];
+        let ctypes: [&[u8]; 3] = [b"application/x-www-form-urlencoded", b"application/x-www-form-urlencoded; charset=UTF-8", b"application/json"];
+        let n_t = targets.len() as u64 * form_bodies.len() as u64 * ctypes.len() as u64 * 4 * 2;
+        let b = base;
+        let part = par_sweep(n_t, |i, st| {
+            let mut x = i;
+            let qc = x % 2 == 1;
+            x /= 2;
+            let opt = x % 4;
+            x /= 4;
+            let ct = ctypes[(x % ctypes.len() as u64) as usize];
+            x /= ctypes.len() as u64;
+            let body = form_bodies[(x % form_bodies.len() as u64) as usize];
+            x /= form_bodies.len() as u64;
+            let u = &targets[x as usize];
+            let mut cfg = Cfg::basic(now);
+            cfg.s3 = opt & 1 == 1;
+            cfg.fold = opt & 2 == 2;
+            let src = if qc { &qbase_wire } else { &base_wire };
+            let mut w = src.clone();
+            if qc {
+                let q = src.uri.split_once('?').map(|x| x.1).unwrap_or("");
+                w.uri = if u.contains('?') { format!("{}&{}", u, q) } else { format!("{}?{}", u, q) };
+            } else {
+                w.uri = u.clone();
+            }
+            w.method = "POST".into();
+            w.body = body.to_vec();
+            w.headers.push(("Content-Type".into(), ct.to_vec()));
+            total(b + i, "request-target-x-form", w, &cfg, &std_prov, st);
+        });
+        st = st.merge(part);
+        base += n_t;
+    }
+
     // ---- (c) header values: every admissible byte at every position of five templates
     let hv_bytes: Vec<u8> = std::iter::once(b'\t').chain(0x20u8..0x7f).chain(0x80u8..=0xff).collect();
     let auth_tmpl = String::from_utf8(base_wire.headers.iter().find(|h| h.0 == "Authorization").unwrap().1.clone()).unwrap();
@@ -591,7 +633,7 @@ pub fn run_child(ctx: &Ctx) -> Report {
     Report {
         stats: st,
         rule: format!(
-            "every case runs under catch_unwind inside a child process (abnormal termination = violation), with overflow checks and debug assertions on, alternately with log formatting on, against a strict key provider (panics when called without readiness; not ready at once / answer pending for a share of the cases): (a) the C13 defect product on both carriers x {{default,S3,fold}} x 3 requirement sets (incl. non-ASCII and empty names); (b) every printable ASCII byte substituted and inserted at every position of 5 URI templates, every two-character escape %c1c2 over 94^2 in path, query value and query name, 40 special URIs (asterisk-, authority-, absolute-form, truncated escapes, 40-60 kB paths / queries) x 2 carriers x 3 options; (c) every byte HeaderValue admits (tab, 0x20-0x7E, 0x80-0xFF) substituted and inserted at every{} position of Authorization / X-Amz-Date / Date / Content-Type / token values; (d) bodies of {} lengths (around 21845, 32768, 65535, up to 200000) x 8 fills (expanding bytes, pairs, UTF-8, separators, escapes) x 11 content types x fold x carrier; all 256 one-byte and every {}th two-byte body as a UTF-8 form; {} charset labels x all one-byte, every {}th two-byte and 4 special bodies; (e) 9 capacities x secret lengths 0..100 x 4 fills; (f) every C16 timestamp string on both carriers and through the unstable API; (g) every subset of set fields of the three builders; (h) every SignatureError shape x 4 messages through Display/Debug/source/code/status/From<Box>; (i) derivation with empty / non-ASCII / 10 kB scopes and NaiveDate::MIN/MAX/year 0/-1/10000; canonicalisation helpers on degenerate and 1 MiB inputs. Oracle: a value or an error, never a panic, abort, hang or non-SignatureError. states = (sweep, outcome class)",
+            "every case runs under catch_unwind inside a child process (abnormal termination = violation), with overflow checks and debug assertions on, alternately with log formatting on, against a strict key provider (panics when called without readiness; not ready at once / answer pending for a share of the cases): (a) the C13 defect product on both carriers x {{default,S3,fold}} x 3 requirement sets (incl. non-ASCII and empty names); (b) every printable ASCII byte substituted and inserted at every position of 5 URI templates, every two-character escape %c1c2 over 94^2 in path, query value and query name, 40 special URIs (asterisk-, authority-, absolute-form, truncated escapes, 40-60 kB paths / queries) x 2 carriers x 3 options; (b') 45 request targets of every form (origin, absolute, authority incl. bare host and IPv6, asterisk, empty, fragment, scheme without path) x 6 form bodies x 3 content types x {{default,S3,fold,S3+fold}} x carrier, so that the target is rebuilt under form folding; (c) every byte HeaderValue admits (tab, 0x20-0x7E, 0x80-0xFF) substituted and inserted at every{} position of Authorization / X-Amz-Date / Date / Content-Type / token values; (d) bodies of {} lengths (around 21845, 32768, 65535, up to 200000) x 8 fills (expanding bytes, pairs, UTF-8, separators, escapes) x 11 content types x fold x carrier; all 256 one-byte and every {}th two-byte body as a UTF-8 form; {} charset labels x all one-byte, every {}th two-byte and 4 special bodies; (e) 9 capacities x secret lengths 0..100 x 4 fills; (f) every C16 timestamp string on both carriers and through the unstable API; (g) every subset of set fields of the three builders; (h) every SignatureError shape x 4 messages through Display/Debug/source/code/status/From<Box>; (i) derivation with empty / non-ASCII / 10 kB scopes and NaiveDate::MIN/MAX/year 0/-1/10000; canonicalisation helpers on degenerate and 1 MiB inputs. Oracle: a value or an error, never a panic, abort, hang or non-SignatureError. states = (sweep, outcome class)",
             if thorough { "" } else { " (every 3rd for Authorization)" }, lens.len(), two_stride, LABELS.len(), label_stride
         ),
         bounds: json!({"cases": base}),
